@@ -70,10 +70,10 @@ def atoi (s : String) : Int × Bool :=
     else if v < minInt64 then (minInt64, false)
     else (v, true)
 
-private def hexDigit (n : Nat) : Char :=
+def hexDigit (n : Nat) : Char :=
   if n < 10 then Char.ofNat ('0'.toNat + n) else Char.ofNat ('A'.toNat + (n - 10))
 
-private def unreservedByte (b : UInt8) : Bool :=
+def unreservedByte (b : UInt8) : Bool :=
   let n := b.toNat
   (0x41 ≤ n && n ≤ 0x5A) || (0x61 ≤ n && n ≤ 0x7A) || (0x30 ≤ n && n ≤ 0x39) ||
   n == 0x2D || n == 0x5F || n == 0x2E || n == 0x7E
